@@ -110,7 +110,12 @@ class _Derive:
             b = self._fork(st)
             self._learn(s.test, a, True)
             self._learn(s.test, b, False)
-            return self._block(s.body, a) + self._block(s.orelse, b)
+            out = []
+            if not a.get('dead'):
+                out += self._block(s.body, a)
+            if not b.get('dead'):
+                out += self._block(s.orelse, b)
+            return out
         if isinstance(s, ast.Match):
             out = []
             for c in s.cases:
@@ -124,7 +129,7 @@ class _Derive:
                         labels |= set(_pattern_labels(c.pattern))
                     except AnalysisError:
                         pass
-                dom = st['facts'].get('in:' + ast.unparse(s.subject))
+                dom = st['facts'].get('in:' + self._key(s.subject, st))
                 if not (dom is not None and set(dom) <= labels):
                     out.append(self._fork(st))
             return out
@@ -195,6 +200,12 @@ class _Derive:
             return e.args[0].value
         return None
 
+    def _key(self, a, st) -> str:
+        """Text that identifies what is being tested: a plain local standing for a call expression
+        (`prefix = val[0].lower()`) is that expression, as long as its inputs were not rebound."""
+        e = self._through_temp(a, st) if isinstance(a, ast.Name) else a
+        return ast.unparse(e)
+
     def _learn(self, test, st, truth):
         if isinstance(test, ast.BoolOp) and isinstance(test.op, ast.And) and truth:
             for v in test.values:
@@ -233,9 +244,19 @@ class _Derive:
                     st['facts']['<=' + b.id] = _ival(a) - (1 if isinstance(op, ast.Gt) else 0)
             if isinstance(op, ast.In) and truth and isinstance(b, (ast.Tuple, ast.List, ast.Set)) and \
                     all(isinstance(e, ast.Constant) for e in b.elts):
-                st['facts']['in:' + ast.unparse(a)] = tuple(e.value for e in b.elts)
-            if isinstance(op, ast.Eq) and truth and isinstance(b, ast.Constant) and isinstance(b.value, str):
-                st['facts']['in:' + ast.unparse(a)] = (b.value,)
+                st['facts']['in:' + self._key(a, st)] = tuple(e.value for e in b.elts)
+            if isinstance(op, (ast.Eq, ast.NotEq)) and isinstance(b, ast.Constant) and isinstance(b.value, str):
+                k = 'in:' + self._key(a, st)
+                holds = truth if isinstance(op, ast.Eq) else not truth
+                if holds:
+                    if k in st['facts'] and b.value not in st['facts'][k]:
+                        st['dead'] = True          # contradicts what a guard established
+                    st['facts'][k] = (b.value,)
+                elif k in st['facts']:
+                    rest = tuple(v for v in st['facts'][k] if v != b.value)
+                    st['facts'][k] = rest
+                    if not rest:
+                        st['dead'] = True          # every admitted value was tested and excluded: unreachable
             if isinstance(b, ast.Constant) and isinstance(b.value, int):
                 if (isinstance(op, ast.Eq) and truth) or (isinstance(op, ast.NotEq) and not truth):
                     st['facts'][ast.unparse(a)] = b.value
@@ -616,6 +637,9 @@ def run(w: World, rep: Report):
     # ---- R6 macro / symbol tables are expanded from copies ---------------------------------
     _macro_table(w, rep)
 
+    # ---- R7 one- vs two-symbol operand forms are told apart by the instruction tables -------
+    _lookahead(w, rep)
+
     from .report import depend
     depend(rep, w, 'rules_c19', ('C19.R3',), 'C11.TD19',
            'what a source compiles to does not depend on earlier compilations: no parser function mutates a default '
@@ -751,6 +775,47 @@ def _advances(stmts, idx_var='index') -> set[int]:
     for a in rec(stmts, 0):
         results.add(a)
     return results
+
+
+def _lookahead(w: World, rep: Report):
+    """`OP_PUSH1 <size> <val>` vs `OP_PUSH1 <val>` (and PUSH2): whether the symbol after the first operand is a
+    second operand or the next instruction is decided by looking it up - it is an instruction exactly when it is
+    in the op table, the NOP table, the alias table or the special symbols.  A test on the spelling of the symbol
+    (a value prefix d/f/x/s) swallows instructions written as bare aliases (SHA256, DUP, FALSE, XOR ...)."""
+    rep.rule('C11.R7', 'the one- vs two-symbol operand form is chosen by looking the next symbol up in the op, NOP, alias '
+             'and special-symbol tables', floor=2)
+    TABLES = ('opcodes_inverse', 'nopcodes_inverse', 'opcode_aliases', '_special_symbols')
+    n = 0
+    for fi in w.repo.all_funcs(['parsing']):
+        if fi.parent is not None or not fi.name.startswith('_get_') or len(fi.params) < 3:
+            continue
+        cfg = w.cfg(fi)
+        adv = fi.params[2]
+        twos = [nd for nd in cfg.nodes if nd.kind == 'stmt' and isinstance(nd.ast, ast.AugAssign) and
+                isinstance(nd.ast.target, ast.Name) and nd.ast.target.id == adv and isinstance(nd.ast.value, ast.Constant)
+                and nd.ast.value.value == 2]
+        ones = [nd for nd in cfg.nodes if nd.kind == 'stmt' and isinstance(nd.ast, ast.AugAssign) and
+                isinstance(nd.ast.target, ast.Name) and nd.ast.target.id == adv and isinstance(nd.ast.value, ast.Constant)
+                and nd.ast.value.value == 1]
+        if not (twos and ones):
+            continue            # only helpers that choose between consuming one or two symbols
+        for nd in twos:
+            n += 1
+            consulted = set()
+            for t, pol in cfg.dominating_conditions(nd):
+                a = t.ast
+                if isinstance(a, ast.Compare) and len(a.ops) == 1 and isinstance(a.comparators[0], ast.Name) and \
+                        a.comparators[0].id in TABLES:
+                    if (isinstance(a.ops[0], ast.NotIn) and pol is True) or (isinstance(a.ops[0], ast.In) and pol is False):
+                        consulted.add(a.comparators[0].id)
+            missing = [t for t in TABLES if t not in consulted]
+            rep.check('C11.R7', f'parsing.{fi.name}|two-symbol-form|tables-consulted', not missing, line=nd.line, file=RELP,
+                      why='' if not missing else
+                      f'the second symbol is taken as an operand without being looked up in {missing}: an instruction '
+                      f'spelled like a value (bare alias starting with d/f/x/s, a fork alias, a delimiter) is swallowed as '
+                      f'data and the written operand is dropped, silently')
+    if n == 0:
+        raise AnalysisError('no encoder helper that chooses between a one- and a two-symbol operand form found')
 
 
 def _push_partition(w: World, rep: Report):
